@@ -18,6 +18,8 @@
 import Model.Template
 import Proofs.JsonPrint
 import Proofs.ExportText
+import Proofs.RowTieMarshal
+import Proofs.FlowTieExport
 
 namespace Jl.C01
 open Jl Jl.Value Jl.Template Jl.JsonPrint
@@ -97,5 +99,25 @@ theorem text_line_valid_or_nothing (env : Env) (hx : FloatTextOK env.ext) (to : 
 theorem text_bytes_or_string (env : Env) (to : Tmpl) (line : Bytes) :
     exportLine env to (.bytes line) = exportLine env to (.str line) :=
   ExportText.exportLine_bytes_eq_str env to line
+
+
+/-! ### The writer's code is the source's (Proofs/RowTieMarshal, Proofs/FlowTieExport)
+
+`Gen.rowFacts.marshal` and `Gen.flowTable.exporterExport` are regenerated from `row.go` and
+`exporter.go` on every run; interpreted from the meaning of their constructors alone they compute
+what the model's `marshalVal` and `exportLine` compute — so the theorems above are about
+`MarshalJSON`'s buffer discipline and `Export`'s single write as they are written today. -/
+
+/-- `row.MarshalJSON`, as the source says it today, is `RowPrint.marshalVal env (.row ms)`; and
+    `Exporter.Export` is `exportLine`: one `Write` of the marshalled row followed by the line
+    separator the translator read (0x0A). -/
+theorem writer_model_is_the_source :
+    (∀ (env : Value.Env) (ms : Members),
+      RowTie.marshalRowG Gen.rowFacts.marshal (RowPrint.marshalVal env) ms.toList =
+        some (RowPrint.marshalVal env (.row ms))) ∧
+    (∀ (env : Value.Env) (t : Template.Tmpl) (v : Dyn),
+      FlowTie.exportG Gen.flowTable.exporterExport env t v = some (Template.exportLine env t v)) ∧
+    Gen.flowTable.exporterExport = .oneWrite Gen.lineSeparator .wrapped :=
+  ⟨RowTie.marshal_as_modelled, FlowTie.export_is_exportLine, FlowTie.separator_as_generated⟩
 
 end Jl.C01
